@@ -455,7 +455,7 @@ func genC25(t *rapid.T) c25Case {
 		c.Subj.Status = "frozen"
 		c.Subj.Updates, c.Sub.Updates = 0, 0
 	}
-	c.Diff = rapid.SampledFrom([]string{"none", "none", "trusting", "chain-id", "chain-id-rev", "allow-flags"}).Draw(t, "exempt-diff")
+	c.Diff = []string{"none", "none", "trusting", "chain-id", "chain-id-rev", "allow-flags"}[upick(t, 6, "exempt-diff")]
 	// ... with 0, 1 or 2 gate conditions broken
 	c.Perturb = rapid.SampledFrom([]int{0, 1, 1, 1, 1, 2}).Draw(t, "perturb")
 	kinds := rapid.Permutation([]string{"subj-active", "sub-status", "type", "height", "param", "same-id"}).Draw(t, "perturb-kinds")
@@ -483,9 +483,9 @@ func genC25(t *rapid.T) c25Case {
 			}
 			c.Sub.Updates = 0
 		case "height":
-			c.HRel = rapid.SampledFrom([]int{0, 0, -1}).Draw(t, "hrel")
+			c.HRel = []int{0, 0, -1}[upick(t, 3, "hrel")]
 		case "param":
-			c.Diff = rapid.SampledFrom([]string{"trust-level", "unbonding", "drift", "proof-specs", "upgrade-path"}).Draw(t, "diff")
+			c.Diff = []string{"trust-level", "unbonding", "drift", "proof-specs", "upgrade-path"}[upick(t, 5, "diff")]
 		case "same-id":
 			if rapid.IntRange(0, 3).Draw(t, "same-id") != 0 {
 				continue
